@@ -399,6 +399,38 @@ class C14Spec(c01.C01Spec):
                         orc.flag('pair_not_reconnected', 'host %d was restarted while its connection to host %d had gone silent and dialled again: %.1f s later a probe from host %d to host %d was delivered to %r (the accepting side has to replace the stale connection by the new one)' % (
                             b, a, cfg['conf']['connectionRetryTime'] + 2 * cfg['conf']['raftMaxTimeout'] + 3.0, x, y, got), dict(pair=[a, b]))
                         return
+        # phase 2c: a link that was merely idle.  Two followers exchange nothing while the leader is stable; after more
+        # than connectionTimeout of such silence both still report each other connected - then a message in either
+        # direction has to arrive (nothing is wrong with the link or the peer)
+        lead = sch.leader_idx()
+        if n >= 3 and lead is not None:
+            fol = [i for i in range(n) if i != lead and w.hosts[i].node is not None]
+            if len(fol) >= 2:
+                x, y = fol[0], fol[-1]
+                idle = cfg['conf']['connectionTimeout'] * 1.3 + 0.5
+                t0 = w.T
+                steady = True
+                while w.T - t0 < idle:
+                    if not rounds(0.2):
+                        return
+                    if sch.leader_idx() != lead:
+                        steady = False
+                        break
+                if steady and conn_state(w, x, y) == (True, True) and conn_state(w, y, x) == (True, True):
+                    w.probe('idle_link_phase')
+                    exp3 = []
+                    for a_, b_ in ((x, y),) if (w.seed & 1) else ((y, x),):
+                        pid += 1
+                        apply([0.0, 'probe', a_, b_, pid])
+                        exp3.append((pid, a_, b_))
+                    if not rounds(1.0):
+                        return
+                    for p_, a_, b_ in exp3:
+                        sent = orc.probes_sent.get(p_)
+                        if sent is not None and sent[2] and orc.probes_got.get(p_) != [b_]:
+                            orc.flag('probe_not_delivered', 'hosts %d and %d (both followers of a steady leader) reported each other connected after %.1f s without traffic between them (connectionTimeout %.1f s); the first message from %d to %d was accepted by the transport but not delivered (delivered to %r)' % (
+                                x, y, idle, cfg['conf']['connectionTimeout'], a_, b_, orc.probes_got.get(p_)), dict(pair=[x, y], idle=True))
+                            return
         # phase 3: a member is removed (while up, while down, or while down and the others were restarted since it was last
         # seen) and then runs again with its old configuration: nothing of it may reach the remaining members
         mode = cfg.get('removal_phase')
